@@ -6,6 +6,7 @@ import (
 	"fmt"
 
 	"gitlab.com/yawning/obfs4.git/transports/base"
+	"gitlab.com/yawning/obfs4.git/transports/obfs4/framing"
 )
 
 // VerifServerIdentity projects the identity a server factory holds
@@ -50,3 +51,14 @@ func VerifBufferSizes(c interface{}) (ciphertext, decoded int, ok bool) {
 
 // VerifReplayTTLSeconds is the time-to-live of the bridge's replay filter.
 func VerifReplayTTLSeconds() int { return int(replayTTL.Seconds()) }
+
+// VerifHandshakeConstants returns the handshake length constants the code uses.
+func VerifHandshakeConstants() map[string]int {
+	return map[string]int{
+		"maxHandshakeLength": maxHandshakeLength, "clientMinPadLength": clientMinPadLength, "clientMaxPadLength": clientMaxPadLength,
+		"serverMinPadLength": serverMinPadLength, "serverMaxPadLength": serverMaxPadLength, "clientMinHandshakeLength": clientMinHandshakeLength,
+		"serverMinHandshakeLength": serverMinHandshakeLength, "inlineSeedFrameLength": inlineSeedFrameLength, "markLength": markLength, "macLength": macLength,
+		"maxPacketPayloadLength": maxPacketPayloadLength, "maximumSegmentLength": framing.MaximumSegmentLength, "frameOverhead": framing.FrameOverhead,
+		"packetOverhead": packetOverhead, "keyLength": framing.KeyLength, "seedPacketPayloadLength": seedPacketPayloadLength,
+	}
+}
